@@ -606,6 +606,20 @@ Proof.
   - right. destruct Hc as [-> [-> _]]. auto.
 Qed.
 
+(** ** the forbidden version *)
+Lemma extract_rejects_ff tp ts : forbidden_version tp = true -> extract tp ts = None.
+Proof.
+  intros H. destruct tp as [|a [|b r]]; try discriminate.
+  cbn in H. apply andb_prop in H as [Ha Hb]. apply N.eqb_eq in Ha, Hb. subst.
+  unfold extract.
+  destruct (extract_part 2 (102 :: 102 :: r)) as [[ver|] h1] eqn:E; [|reflexivity].
+  apply extract_part_inv in E as (part & Hl & _ & -> & Hh).
+  assert (part = [102; 102]) as ->.
+  { destruct part as [|x [|y [|z p]]]; cbn in Hl; try discriminate.
+    destruct Hh as [Hh|[Hh _]]; cbn in Hh; inversion Hh; reflexivity. }
+  vm_compute. reflexivity.
+Qed.
+
 (** ** round trip *)
 Definition wf_sc (sc : spanctx) : Prop :=
   length (tid sc) = 16%nat /\ length (sid sc) = 8%nat /\
